@@ -482,6 +482,8 @@ func replayTag(toks []string) string {
 			return "race-hclose-get"
 		case "expireget":
 			return "race-expire-get"
+		case "ffpark":
+			return "race-attach-close"
 		}
 	}
 	if len(toks) >= 3 && toks[2] == "1" {
@@ -647,6 +649,103 @@ func (g *gen) history(i int) ([]string, string, bool) {
 		g.c.Count("hist:fan-in")
 		toks := g.flat(cfg)
 		return toks, replayTag(toks), g.removal || g.closeOpen
+	case kind < 33: // AddConn overlapping the end of its packet conn: handleConn parked between lookup and AddConn
+		if g.p(25) {
+			cfg[2] = "1"
+		}
+		u := ufragPool[g.rnd(4)]
+		is6 := g.p(25)
+		ip := g.pickIP(is6)
+		known := g.p(60)
+		if known {
+			g.add("get", "0", Hex(u), B(is6), Hex(ip))
+			g.handles = append(g.handles, &ghandle{id: 0, u: u, is6: is6, ip: ip})
+		}
+		// sometimes another client of the same ufrag is already attached
+		other := g.p(40)
+		if other {
+			ra := g.newRaddrForce(is6)
+			raw := buildStun(g.c, stun.MethodBinding, stun.ClassRequest, u+":o", true, 0)
+			g.add("acc", "1", Hex(ra), B(is6), Hex(ip), "1", "64")
+			g.add("ff", "1", strconv.Itoa(len(raw)), "1", "1", Hex(u+":o"), Hex(string(raw)))
+		}
+		raddr := g.newRaddrForce(is6)
+		raw := buildStun(g.c, stun.MethodBinding, stun.ClassRequest, u+":p", true, 0)
+		g.add("acc", "0", Hex(raddr), B(is6), Hex(ip), "1", strconv.Itoa([]int{1, 3, 64, 1 << 20}[g.rnd(4)]))
+		g.add("ffpark", "0", strconv.Itoa(len(raw)), "1", "1", Hex(u+":p"), Hex(string(raw)))
+		if g.p(30) {
+			g.add("census")
+		}
+		// what happens to the packet conn while AddConn is held
+		opts := []int{0, 3, 4, 5}
+		if known {
+			opts = append(opts, 1, 1)
+		}
+		if !known && !other {
+			opts = append(opts, 2, 2)
+		}
+		what := opts[g.rnd(len(opts))]
+		closedMux := false
+		switch {
+		case what == 0:
+			g.add("rm", Hex(u))
+			g.c.Count("attach-race:remove")
+		case what == 1 && known:
+			g.add("hclose", "0")
+			g.c.Count("attach-race:last-handle-close")
+		case what == 2 && !known && !other:
+			g.add("expire", Hex(u), B(is6), Hex(ip))
+			g.c.Count("attach-race:expiry")
+		case what == 3:
+			g.add("muxclose")
+			closedMux = true
+			g.c.Count("attach-race:muxclose")
+		case what == 4:
+			// Remove, and the agent comes back for the same ufrag before AddConn runs: the connection
+			// was routed to the OLD packet conn
+			g.add("rm", Hex(u))
+			g.add("get", "5", Hex(u), B(is6), Hex(ip))
+			g.c.Count("attach-race:remove-then-get")
+		default:
+			g.c.Count("attach-race:nothing(control)")
+		}
+		if g.p(50) {
+			g.add("stat", "0")
+		}
+		if known && g.p(50) {
+			g.add("rd", "0")
+		}
+		g.add("release", "0")
+		g.add("stat", "0")
+		if known {
+			g.add("rd", "0")
+			g.add("wr", "0", Hex(raddr), Hex("after"))
+			g.add("crecv", "0")
+		}
+		if what == 4 {
+			g.add("rd", "5")
+		}
+		g.add("send", "0", Hex("x"))
+		g.add("census")
+		if closedMux {
+			g.add("closewait")
+			g.add("census")
+		} else if g.p(60) {
+			g.add("muxclose")
+			g.add("expire", Hex(u), B(is6), Hex(ip))
+			g.add("closewait")
+			g.add("census")
+		}
+		g.add("stat", "0")
+		if other {
+			g.add("stat", "1")
+		}
+		if known {
+			g.add("rd", "0")
+		}
+		g.c.Count("hist:race-attach-close")
+		toks := g.flat(cfg)
+		return toks, replayTag(toks), what <= 4
 	}
 	// general history
 	if g.p(20) {
